@@ -829,3 +829,6 @@ _RUN_BEFORE_E1 = run
 def run(ctx: Ctx) -> None:  # noqa: F811
     _RUN_BEFORE_E1(ctx)
     ctx.run(rule_e1, ctx)
+
+EXPLANATION = EXPLANATION + (" Added while building: (E1) find_strategies owes a report for every basis: a possibly empty value (the result of fstrip / bstrip, empty for the pattern of "
+                             "length one) does not reach a shape helper that asserts a non-empty permutation unless the pattern's length is tested first (defect fixed in dc4594f).")
